@@ -16,6 +16,7 @@ PROPS["C01"] = {
                  "NsyncVerif.Props.C01.C01_exclusion_ann", "NsyncVerif.Props.C01.C01_word_agrees",
                  "NsyncVerif.Props.C01.C01_store_sound"],
     "layers": ["mux"],
+    "tie": ["NsyncVerif.Proofs.TieConsts"],
     "oracles": {"exclusion", "exclusion-ann", "panic"},
     "plan": {
         "quick": [("core", 60, 6), ("cv", 50, 6), ("cv_raw", 30, 6), ("muwait", 50, 6), ("waitn_cv", 30, 6), ("debug", 40, 6), ("cv_rsignal", 60, 8)],
@@ -114,6 +115,7 @@ PROPS["C03"] = {
                 ["NsyncVerif.VC." + t for t in ["vc_mono_run", "acq_sees_relc", "rel_records", "release_chain_run", "message_passing",
                  "relaxed_load_no_edge", "relaxed_store_breaks"]],
     "layers": ["vc", "mux", "once"],
+    "tie": ["NsyncVerif.Proofs.TieOrders", "NsyncVerif.Proofs.TieSites"],
     "oracles": {"vc"},
     "plan": {"quick": [("core", 80, 6), ("cv", 50, 6), ("muwait", 50, 6), ("once", 60, 6), ("ctr", 60, 6)],
              "thorough": [("core", 800, 12), ("cv", 500, 12), ("muwait", 500, 12), ("once", 600, 12), ("ctr", 600, 12), ("mixed", 500, 12)]},
@@ -137,6 +139,7 @@ PROPS["C14"] = {
     "imports": ["NsyncVerif.Props.C14"],
     "theorems": [MUQ + t for t in ["C14_escalates", "C14_sets_bit", "C14_requeue_front", "C14_blocks_fresh", "C14_cleared_only_by_long_waiter", "C14_woken_ignores_hints"]],
     "layers": ["muq", "mux"],
+    "tie": ["NsyncVerif.Proofs.TieConsts"],
     "oracles": {"stuck", "steplimit", "panic", "starved"},
     "plan": {"quick": [("core", 150, 8), ("starve", 40, 10)], "thorough": [("core", 1500, 16), ("starve", 400, 20)]},
     "level_text": "Kernel-checked theorems over the MuQ model: a thread inside lock_slow has its long-wait flag set exactly from its 30th wake-up on (C14_escalates); it then sets MU_LONG_WAIT in every enqueue and re-queues at the FRONT (C14_sets_bit, C14_requeue_front); while the bit (or, for fresh readers, MU_WRITER_WAITING) is set no step of a thread that has not itself waited acquires — fast paths, try-locks and lock_slow with clear = 0 (C14_blocks_fresh); the bit is cleared only by the acquiring CAS of a thread that itself escalated (C14_cleared_only_by_long_waiter); a woken thread is stopped only by real lock conflicts (C14_woken_ignores_hints). A directed corpus schedule drives the real library through 30 wake-ups of a victim and checks the same steps in lockstep; the harness measures the number of sleeps of a victim inside one lock call under adversarial barging.",
